@@ -1,4 +1,6 @@
 #!/bin/bash
-# emit_known.sh <Cxx> [tiers...]  -- development helper: print `known:` lines for every failing signature not yet listed
+# emit_known.sh <Cxx> [tiers...]  -- development helper: print `known:` lines for every failing signature not yet listed.
+# Always goes through bin/check so that the binary is rebuilt from /repo's current tree (never a stale seeded build).
 ID=$1; shift; TIERS=${@:-quick thorough}
-for t in $TIERS; do VERIF_EMIT_KNOWN=1 /verif/mc/target/mc/verif-mc $ID $t --list-signatures 2>/dev/null | grep "^known:"; done | awk -F' :: ' '!seen[$1]++' | sort | cut -c1-600
+if [ -n "$(git -C /repo status --porcelain --untracked-files=no)" ]; then echo "repo dirty, refusing" >&2; exit 2; fi
+for t in $TIERS; do VERIF_EMIT_KNOWN=1 /verif/bin/check $ID $t --list-signatures | grep "^known:"; done | awk -F' :: ' '!seen[$1]++' | sort | cut -c1-600
